@@ -107,6 +107,7 @@ func runC10(c *core.Ctx) {
 	c.RuleDoc("R10.4", "directory handle lists the source")
 	c.RuleDoc("R10.5", "a copy that was not written and closed successfully does not stay in the cache")
 	c.RuleDoc("R10.12", "the fill uses no buffer kept in the file system value (= R11.4)")
+	c.RuleDoc("R10.14", "the cache directory handle's page window lies inside the listing for every cursor (= R16.2)")
 	c.RuleDoc("R10.13", "the cache directory handle moves its cursor by exactly the page it returns (= R16.12)")
 	c.RuleDoc("R10.11", "the cache copy is chmod-ed with the source's whole mode")
 	c.RuleDoc("R10.10", "the cache copy is created with the source's mode itself")
@@ -151,6 +152,7 @@ func runC10(c *core.Ctx) {
 	c.Floor("R10.11", 1)
 	c.Floor("R10.12", 1)
 	c.Floor("R10.13", 1)
+	c.Floor("R10.14", 1)
 	c.Floor("R10.1", 1)
 	c.Floor("R10.2", 1)
 	c.Floor("R10.3", 1)
@@ -335,6 +337,9 @@ func r10Dir(c *core.Ctx, p *load.Program, sh *cacheShape) {
 	// R10.13 (= R16.12): the directory handle's cursor moves by the page returned, like the source's handle
 	if fn := ms["ReadDir"]; fn != nil {
 		r16CursorMovesByPage(c, p, "cache.dir", fn, listingSlices(fn), "R10.13")
+		// R10.14 (= R16.2): the page window is inside the listing for every cursor Seek can set — the source answers an
+		// empty page there, a panic is not transparent
+		c.WithAlias(map[string]string{"R16.2": "R10.14"}, func() { r16Window(c, p, "cache.dir", fn, listingSlices(fn)) })
 	}
 	if fn := ms["Stat"]; fn != nil {
 		ok := false
@@ -764,6 +769,21 @@ func r10NeverServeMark(c *core.Ctx, p *load.Program, sh *cacheShape, rule string
 	})
 	c.Check(load != nil && lookup != nil && ssax.Dominates(load, lookup), rule, tk+".Open|mark-consulted-before-cache", p.Pos(fn.Pos()), "the never-serve mark is looked up before the cache is",
 		fmt.Sprintf("%s.Open does not look the name up in the %s table before it opens the cache file: a partial copy that could not be removed is served as if it were complete", tk, mark))
+	// (a') ... and under the per-path lock: a mark read before Lock(name) is stale once the lock is obtained — an Open
+	// queued behind a fill that fails (and cannot remove its leftover) read "not partial" before the fill set the mark,
+	// and serves the leftover
+	var lockCall ssa.Instruction
+	ssax.Instrs(fn, func(ins ssa.Instruction) {
+		if cl, ok := ins.(*ssa.Call); ok && lockCall == nil {
+			if callee := ssax.StaticCallee(cl); callee != nil && callee.Name() == "Lock" && strings.HasSuffix(pkgPathOf(callee), "/pathlock") {
+				lockCall = ins
+			}
+		}
+	})
+	if load != nil {
+		c.Check(lockCall != nil && ssax.Dominates(lockCall, load), rule, tk+".Open|mark-consulted-under-the-path-lock", p.Pos(load.Pos()), "the never-serve mark is read after the per-path lock was taken",
+			fmt.Sprintf("%s.Open reads the %s table before it holds the per-path lock: the answer is stale when the lock is obtained — an Open that waited for a failing fill read 'not partial' before that fill set the mark, finds the leftover in the cache and serves the truncated bytes", tk, mark))
+	}
 	// (b) removed only after a successful removal of the file
 	var isCalls []*ssa.Call
 	ssax.Instrs(fn, func(ins ssa.Instruction) {
